@@ -278,6 +278,7 @@ def _execute(case):
     pos = fe.node_positions(nx, ny, nz, sz)
     if kind == 'kin':
         _kin(ctx, pym, dom, grid, sz, dim, nel, tab, pos)
+        _int_nodal(ctx, pym, dom, dim, pos)
         key = f"kin|{grid}|{sz}"
     elif kind == 'mat':
         _mat(ctx, pym, dom, grid, sz, dim, nel, tab, pos)
@@ -360,6 +361,32 @@ def _kin(ctx, pym, dom, grid, sz, dim, nel, tab, pos):
             ctx.ok()
         else:
             ctx.bad('element_average', {'ndof': '1' if ndof == 1 else '>1'}, only, got=got, want=want, err=e)
+
+
+def _int_nodal(ctx, pym, dom, dim, pos):
+    """an integer-typed nodal vector is the same nodal vector as its float-typed copy"""
+    case = ctx.case
+    if _only(case, part='strain') or _only(case, part='average'):
+        return
+    nn = pos.shape[1]
+    mods = [('Strain', dim, lambda s_: pym.Strain(s_, domain=dom, voigt=True)),
+            ('ElementAverage', 1, lambda s_: pym.ElementAverage(s_, domain=dom)),
+            ('ElementAverage', 2, lambda s_: pym.ElementAverage(s_, domain=dom))]
+    for name, ndof, mk in mods:
+        ui = ((np.arange(nn * ndof) * 7) % 5 - 2).astype(np.int64)
+        outs = []
+        for u in (ui, ui.astype(float)):
+            sig = pym.Signal('u', u.copy())
+            m = mk(sig)
+            m.response()
+            outs.append(np.asarray(m.sig_out[0].state))
+            ctx.ntrans += 1
+        ctx.nstates += 1
+        same = outs[0].shape == outs[1].shape and np.max(np.abs(outs[0] - outs[1])) <= 1e-12 * max(1.0, maxabs(outs[1]))
+        if same:
+            ctx.ok()
+        else:
+            ctx.bad('integer_nodal_vector', {'module': name}, {'part': 'intnodal'}, with_int=outs[0], with_float=outs[1])
 
 
 def _mat(ctx, pym, dom, grid, sz, dim, nel, tab, pos):
